@@ -130,22 +130,32 @@ class RegionGeom:
             + 0.5 * b * u4
         )
 
-        psi = np.arccos(r / np.sqrt(-(q**3)))
+        # For u4 in [0, 1] the cubic always has three real roots (|r| <= (-q)**1.5);
+        # rounding at the ends of the interval must not push it into the one-real-root
+        # branch (whose root is negative) or the arccos argument outside [-1, 1].
+        psi = np.arccos(np.clip(r / np.sqrt(-(q**3)), -1.0, 1.0))
         v1 = 2 * np.sqrt(-q) * np.cos(psi / 3)
         v2 = 2 * np.sqrt(-q) * np.cos((psi + 2 * np.pi) / 3)
         v3 = 2 * np.sqrt(-q) * np.cos((psi + 4 * np.pi) / 3)
 
         dscr = q * q * q + r * r
 
-        dmsk = dscr <= 0
-        v1_msk = (v1 > 0) & (v1 >= self.minLOSpathLen) & (v1 <= self.maxLOSpathLen)
-        v2_msk = (v2 > 0) & (v2 >= self.minLOSpathLen) & (v2 <= self.maxLOSpathLen)
-        v3_msk = (v3 > 0) & (v3 >= self.minLOSpathLen) & (v3 <= self.maxLOSpathLen)
+        dmsk = (dscr <= 0) | (np.abs(r) <= np.sqrt(-(q**3)) * (1 + 1e-12))
+        # accept roots that miss the closed range by rounding only, then clamp them
+        tol = 1e-12 * self.maxLOSpathLen
+        lo, hi = self.minLOSpathLen - tol, self.maxLOSpathLen + tol
+        v1_msk = (v1 > 0) & (v1 >= lo) & (v1 <= hi)
+        v2_msk = (v2 > 0) & (v2 >= lo) & (v2 <= hi)
+        v3_msk = (v3 > 0) & (v3 >= lo) & (v3 <= hi)
 
         self.losPathLen = np.zeros_like(v1)
         self.losPathLen[dmsk & v1_msk] = v1[dmsk & v1_msk]
         self.losPathLen[dmsk & v2_msk] = v2[dmsk & v2_msk]
         self.losPathLen[dmsk & v3_msk] = v3[dmsk & v3_msk]
+        sel = dmsk & (v1_msk | v2_msk | v3_msk)
+        self.losPathLen[sel] = np.clip(
+            self.losPathLen[sel], self.minLOSpathLen, self.maxLOSpathLen
+        )
 
         s = np.cbrt(r[~dmsk] + np.sqrt(dscr[~dmsk]))
         t = np.cbrt(r[~dmsk] - np.sqrt(dscr[~dmsk]))
